@@ -114,6 +114,9 @@ impl<'a> Chooser<'a> {
     pub fn pick<'b, T>(&mut self, xs: &'b [T]) -> &'b T {
         &xs[self.below(xs.len())]
     }
+    pub fn pick_s<'s>(&mut self, xs: &[&'s str]) -> &'s str {
+        xs[self.below(xs.len())]
+    }
     pub fn weighted(&mut self, ws: &[u32]) -> usize {
         let total: u64 = ws.iter().map(|w| *w as u64).sum();
         if total == 0 {
